@@ -391,11 +391,13 @@ def gen_storm(st):
         a["unpack"] = st.coin(1, 2 if seq else 4, "unpack")
         r = DEFAULT_RETRIES if a["n_retries"] is None else a["n_retries"]
         a["plan"] = gen_plan(st, r, fault_num, mask)
-        ck = st.weighted((5, 3, 3), "crash-kind") if crashes_on else 0
+        ck = st.weighted((5, 3, 3, 2), "crash-kind") if crashes_on else (st.weighted((5, 0, 0, 2), "crash-kind") if seq else 0)
         if ck == 1:
             a["crash_at"] = st.draw(1, 60, "crash-at")
         elif ck == 2:
             a["crash_site"] = [st.pick(CRASH_SITES, "crash-site"), st.draw(1, 3, "crash-occ")]
+        elif ck == 3:
+            a["interrupt_at"] = st.draw(1, 60, "interrupt-at")      # SIGINT: the loader unwinds through its clean-up code
         sa = st.weighted((5, 2, 1), "start")
         a["start_after"] = 0 if sa == 0 or seq else (st.draw(1, 60) if sa == 1 else st.draw(61, 400))
         a["speed"] = st.pick((1.0, 1.0, 1.0, 3.0, 30.0, 1000.0), "speed")
@@ -633,6 +635,7 @@ class Run:
         a.attrs["net_mode"] = spec.get("net_mode", "up")
         a.speed = spec.get("speed", 1.0)
         a.crash_at = spec.get("crash_at")
+        a.interrupt_at = spec.get("interrupt_at")
         cs = spec.get("crash_site")
         a.crash_site = (cs[0], cs[1]) if cs else None
         if spec.get("collide"):
@@ -803,6 +806,11 @@ class Run:
                          f"shape {getattr(a.result, 'shape', None)})"))
         if isinstance(exc, K.NetworkTouched):
             self.fail("P6/network-used-on-cache-hit", key, f"{who}: the cache entry was present, yet the network was used")
+        if a.interrupted:
+            # SIGINT was delivered: whatever the loader did with it (propagate, or carry on), only what it returned (P2,
+            # above) and the state of the cache (P1, after every step of its unwinding) are judged
+            self.stats["probe:interrupted-loader-" + ("returned" if returned else "raised")] += 1
+            return
         r = DEFAULT_RETRIES if spec.get("n_retries") is None else spec["n_retries"]
         dim, force = spec.get("dim", True), spec.get("force", False)
         t0, t1 = a.attrs.get("first_step"), a.attrs.get("last_step")
@@ -1122,6 +1130,11 @@ def run_unit(params, seed):
             p = {"gen": "scn", "scenario": scn}
             out.add(p, _run(p, S.Stream(seed=seed)))
         out.stats["sweep:crash-points-enumerated"] += n
+        for k in range(1, n + 1):
+            scn = _with_crash(base, idx, k, key="interrupt_at")
+            p = {"gen": "scn", "scenario": scn}
+            out.add(p, _run(p, S.Stream(seed=seed)))
+        out.stats["sweep:interrupt-points-enumerated"] += n
         return out
     if gen == "pairsweep":
         # two context switches, enumerated: A runs i steps, B runs j steps (and is then killed, or not), A finishes,
@@ -1170,10 +1183,10 @@ def _yields_of(res, idx):
     return 0
 
 
-def _with_crash(base, idx, k):
+def _with_crash(base, idx, k, key="crash_at"):
     import copy
     scn = copy.deepcopy(base)
-    scn["actors"][idx]["crash_at"] = k
+    scn["actors"][idx][key] = k
     return scn
 
 
